@@ -17,6 +17,7 @@ import ast
 
 from ..model import strip_comments, Program, walk_own, is_self_attr, dotted
 from ..report import AnalysisError
+from ..model import canon as K
 
 PM = "hypnotoad/utils/parallel_map.py"
 MESH = "hypnotoad/core/mesh.py"
@@ -47,7 +48,7 @@ def run(rep, tier):
 
 
 def T(mod, node):
-    return " ".join(strip_comments(mod.text(node)).split())
+    return mod.code(node)
 
 
 def r1(rep, mod, call, worker):
@@ -107,8 +108,8 @@ def r1(rep, mod, call, worker):
     rep.ob("R1", "the parent stores each result at the index received with it (not at the loop counter)", oks, call.site(pg[0]) if pg else call.site(), "", key="index/store")
     # sizes
     src = [T(mod, s) for s in call.node.body]
-    okn = "args_list = tuple(args_list)" in src and "n_tasks = len(args_list)" in src and "result = [None for i in range(n_tasks)]" in src
-    loops = [n for n in walk_own(call.node) if isinstance(n, ast.For) and T(mod, n.iter) == "range(n_tasks)"]
+    okn = K("args_list = tuple(args_list)") in src and K("n_tasks = len(args_list)") in src and K("result = [None for i in range(n_tasks)]") in src
+    loops = [n for n in walk_own(call.node) if isinstance(n, ast.For) and T(mod, n.iter) == K("range(n_tasks)")]
     rep.ob("R1", "one result slot and one receive per task", okn and len(loops) == 1, call.site(), "", key="index/count")
     rets = [n for n in walk_own(call.node) if isinstance(n, ast.Return)]
     rep.ob("R1", "the assembled list is what is returned", any(T(mod, r.value) == "result" for r in rets if r.value is not None), call.site(), "", key="index/return")
